@@ -164,6 +164,66 @@ HYBRIDS = ('hybrid charge sphere', 'hybrid sphere dipole', 'hybrid molecular cha
 ALL_STYLES = STYLES + HYBRIDS
 FORMATS = ('%.13f', '%.8f', '%.5e', '%.16e')
 
+# ----------------------------------------------------------------------------- hybrids whose sub-styles share a field
+# LAMMPS lists a value that several sub-styles of `atom_style hybrid` define once; the writer has to convert it once.
+# Every ordered pair / triple of distinct sub-styles with at least one common per-atom column beyond id type x y z
+# (mol | q | density | mass | volume | spin+eradius) is generated.  A shared column is "scaled" under a unit style when
+# its working-unit -> LAMMPS-unit factor is not one (only then a conversion applied twice, or not at all, shows).
+SUBSTYLES = tuple(k for k in STYLES if k != 'atomic')
+
+
+def _extra_cols(sub):
+    return [c for c in LD.ATOM_COLUMNS[sub] if c not in ('id', 'type', 'x', 'y', 'z')]
+
+
+def shared_columns(style):
+    """columns that more than one sub-style of a hybrid style defines (manual names), in column order"""
+    words = style.split()
+    if words[0] != 'hybrid':
+        return []
+    seen, shared = [], []
+    for sub in words[1:]:
+        for c in _extra_cols(sub):
+            if c in seen:
+                if c not in shared:
+                    shared.append(c)
+            else:
+                seen.append(c)
+    return shared
+
+
+def _overlapping(k):
+    import itertools
+    out = []
+    for combo in itertools.permutations(SUBSTYLES, k):
+        style = 'hybrid ' + ' '.join(combo)
+        if shared_columns(style):
+            out.append(style)
+    return tuple(out)
+
+
+OVER2 = _overlapping(2)
+OVER3 = _overlapping(3)
+# the default working units (angstrom, amu, eV, e; time follows) in SI - only to pick unit styles in the generator,
+# the oracle takes the live table
+_DEF_BASE = {'m': 1e10, 'kg': 1.0 / LU.AMU, 'C': 1.0 / LU.E, 's': 1.0 / (1e-10 * (LU.AMU / LU.E) ** 0.5)}
+
+
+def scaled_shared(style, units, base):
+    """the shared columns of a hybrid style whose conversion factor under `units` differs from one"""
+    out = []
+    for c in shared_columns(style):
+        q = COLMAP[c][2]
+        if q is None or units == 'lj':
+            continue
+        try:
+            f = LU.factor(units, q, base)[0]
+        except KeyError:
+            continue
+        if abs(f - 1.0) > 1e-6:
+            out.append(c)
+    return out
+
 # data-file column -> (System property, component, LAMMPS quantity)
 COLMAP = {
     'mol': ('m_id', None, None), 'q': ('charge', None, 'charge'),
@@ -214,8 +274,18 @@ def style_needs(style, colname):
 
 
 @functools.lru_cache(maxsize=None)
+def _allowed_units(style):
+    return tuple(u for u in UNITS if not (u == 'electron' and style_needs(style, 'density')))
+
+
+@functools.lru_cache(maxsize=None)
 def _units_for(style):
-    allowed = [u for u in UNITS if not (u == 'electron' and style_needs(style, 'density'))]
+    allowed = _allowed_units(style)
+    if style.startswith('hybrid'):
+        # hybrids with a shared column: mostly the unit styles under which that column is rescaled
+        hot = tuple(u for u in allowed if scaled_shared(style, u, _DEF_BASE))
+        if hot:
+            return st.sampled_from(hot + hot + hot + allowed)
     return st.sampled_from(allowed)
 
 
@@ -260,7 +330,12 @@ _REL = gens.relpoints(1, 10)
 _REL_SMALL = gens.relpoints(1, 3)
 _SEED = st.integers(0, 2 ** 32 - 1)
 _BITS = st.integers(0, 4095)
-_ALLSTYLES = st.sampled_from(ALL_STYLES)
+# (the shared column of most combinations is the unit-less molecule id: those that share a column with a unit get their own branches)
+_OVER2U = tuple(h for h in OVER2 if any(COLMAP[c][2] is not None for c in shared_columns(h)))
+_OVER3U = tuple(h for h in OVER3 if any(COLMAP[c][2] is not None for c in shared_columns(h)))
+_ALLSTYLES = st.one_of(st.sampled_from(ALL_STYLES), st.sampled_from(ALL_STYLES), st.sampled_from(ALL_STYLES),
+                       st.sampled_from(ALL_STYLES), st.sampled_from(ALL_STYLES), st.sampled_from(_OVER2U), st.sampled_from(_OVER3U),
+                       st.sampled_from(OVER2 + OVER3))
 _SYMS = ('Fe', 'Cu', 'Al', 'O', 'Fe')
 
 
@@ -276,6 +351,190 @@ def gen_symbols(rng, natypes, mode):
     return syms
 
 
+
+
+# ----------------------------------------------------------------------------- almost orthogonal cells
+# tilt factors that are tiny but not zero (shear strains 1e-12 .. 1e-3, log-uniform): tilt / box length = sign * 10**e.
+# Box (documented clean-up, DESIGN 2) zeroes vector components up to 1e-9 of the largest one: the system's cell is the
+# cleaned one (cleaned_vects below); ratios within 10 % of that rung are moved off it by construction.
+_TINY_ONE = st.tuples(st.sampled_from((0, 1, 2, 2, 2)), st.floats(-12.0, -3.0, allow_nan=False), st.sampled_from((-1.0, 1.0)))
+_TINY = st.one_of(st.none(), st.none(), st.none(), st.none(), st.tuples(_TINY_ONE, _TINY_ONE, _TINY_ONE))
+CLEAN_RUNG = 1e-9
+
+
+def apply_tiny(c, tt):
+    """cell dict with tiny tilts put in: per tilt factor (mode, exponent, sign); mode 0 keeps the cell's value,
+    1 sets zero, 2 sets sign * 10**exponent * length; at least one factor is made tiny"""
+    if tt is None:
+        return c
+    c = dict(c)
+    tt = [list(t) for t in tt]
+    if not any(t[0] == 2 for t in tt):
+        tt[int(abs(tt[0][1]) * 7) % 3][0] = 2
+    for key, lk, (mode, ex, sg) in zip(('xy', 'xz', 'yz'), ('lx', 'lx', 'ly'), tt):
+        if mode == 1:
+            c[key] = 0.0
+        elif mode == 2:
+            c[key] = sg * 10.0 ** ex * c[lk]
+    vmax = max(abs(c[k]) for k in ('lx', 'ly', 'lz', 'xy', 'xz', 'yz'))
+    for key in ('xy', 'xz', 'yz'):
+        r = abs(c[key]) / vmax
+        if 0.9 * CLEAN_RUNG < r < 1.1 * CLEAN_RUNG:
+            c[key] = c[key] * 2.0
+    c['tiny'] = True
+    return c
+
+
+def cleaned_vects(V0):
+    """the cell a Box holds for the vectors V0: components up to 1e-9 of the largest are zero (Box.vects, documented).
+    Second value: True when a component sits on the rung itself (outcome depends on the last bit; not judged)"""
+    r = np.abs(V0) / np.abs(V0).max()
+    V = V0.copy()
+    V[r <= CLEAN_RUNG] = 0.0
+    onrung = bool(np.any((r > 0.999 * CLEAN_RUNG) & (r < 1.001 * CLEAN_RUNG)))
+    return V, onrung
+
+
+# ----------------------------------------------------------------------------- process-wide working units
+# atomman.unitconvert.reset_units sets PROCESS-GLOBAL working units.  case['wu'] = None (process left as it is: the
+# default units) or {'cfg': configuration the judged dump runs under, 'pre': None | configuration under which the same
+# physical system was dumped with the same arguments earlier in the same process}.  The numbers of a case are numbers in
+# the default working units (angstrom, amu, eV, e); under another configuration the system is that PHYSICAL system
+# expressed in the working units (own factors from numericalunits attributes, = what uc.set_in_units gives), and the file
+# is judged against the same independent LAMMPS unit table with the live base units.  The oracle always restores the
+# default units (finally).  POSCAR files carry working-unit numbers without any conversion: not part of this class.
+DEFAULT_UNITS = {'length': 'angstrom', 'mass': 'amu', 'energy': 'eV', 'charge': 'e'}
+DEFAULT_CFG = {'kind': 'named', 'units': dict(DEFAULT_UNITS)}
+_WU_NAMED = {'length': ['nm', 'nm', 'pm', 'm', 'cm', 'aBohr', 'um', 'angstrom'], 'mass': ['kg', 'g', 'amu'],
+             'time': ['ns', 'ps', 'fs', 's'], 'energy': ['J', 'eV', 'kcal'], 'charge': ['C', 'e']}
+# named choices always contain a length unit and never all of length+mass+time+energy (what reset_units does then: C09)
+_WU_SUBSETS = [('length',), ('length', 'time'), ('length', 'time'), ('length', 'mass'), ('length', 'energy'), ('length', 'charge'),
+               ('length', 'mass', 'time'), ('length', 'mass', 'energy'), ('length', 'time', 'energy'),
+               ('length', 'mass', 'time', 'charge'), ('length', 'mass', 'energy', 'charge'), ('length', 'time', 'energy', 'charge')]
+_S_WU_SUBSET = st.sampled_from(_WU_SUBSETS)
+_S_WU_Q = {q: st.sampled_from(v) for q, v in _WU_NAMED.items()}
+_ALT_CFG = [{'kind': 'named', 'units': {'length': 'nm', 'time': 'ns'}}, {'kind': 'named', 'units': {'length': 'pm', 'mass': 'kg', 'energy': 'J'}}]
+
+
+@st.composite
+def _named_cfg(draw):
+    sub = draw(_S_WU_SUBSET)
+    return {'kind': 'named', 'units': {q: draw(_S_WU_Q[q]) for q in sub}}
+
+
+_S_CFG = st.one_of(_named_cfg(), _named_cfg(), _named_cfg(), _named_cfg(),
+                   st.builds(lambda v: {'kind': 'seed', 'seed': v}, st.integers(0, 2 ** 31 - 1)),
+                   st.just({'kind': 'SI'}), st.just(DEFAULT_CFG))
+_WU_ON = st.sampled_from((False, False, True))
+_WU_PRE = st.sampled_from(('none', 'default', 'default', 'other'))
+
+
+def _other_than(cfg, ref):
+    # Hypothesis favours its simplest choices: make two configurations differ by construction
+    return cfg if cfg != ref else [a for a in _ALT_CFG if a != ref][0]
+
+
+@st.composite
+def work_units(draw):
+    if not draw(_WU_ON):
+        return None
+    cfg = draw(_S_CFG)
+    pk = draw(_WU_PRE)
+    if pk == 'default':
+        cfg = _other_than(cfg, DEFAULT_CFG)
+        pre = DEFAULT_CFG
+    elif pk == 'other':
+        pre = _other_than(draw(_S_CFG), cfg)
+    else:
+        pre = None
+    return {'cfg': cfg, 'pre': pre}
+
+
+_WU = work_units()
+
+
+def apply_units(uc, cfg):
+    if cfg['kind'] == 'named':
+        uc.reset_units(**cfg['units'])
+    elif cfg['kind'] == 'seed':
+        uc.reset_units(seed=int(cfg['seed']))
+    else:
+        uc.reset_units(seed='SI')
+
+
+def restore_units(uc):
+    uc.reset_units(length='angstrom', mass='amu', energy='eV', charge='e')
+
+
+# System property -> LAMMPS quantity (dimension) of its numbers; properties not listed carry plain numbers
+PROP_Q = {'charge': 'charge', 'mu': 'dipole', 'eradius': 'length', 'kradius': 'length', 'cradius': 'length',
+          'diameter': 'length', 'radius': 'length', 'density': 'density', 'mass': 'mass', 'volume': 'volume',
+          'velocity': 'velocity', 'eradial_velocity': 'velocity', 'ang_momentum': 'ang-mom', 'ang_velocity': 'ang-vel',
+          'force': 'force'}
+
+
+def default_unit_sizes():
+    """size in the CURRENT working units of the default-working-unit unit of every quantity (own arithmetic)"""
+    import numericalunits as nu
+    L, M, E, Q = float(nu.angstrom), float(nu.amu), float(nu.eV), float(nu.e)
+    T = L * (M / E) ** 0.5
+    return {q: L ** a * M ** b * T ** c * Q ** d for q, (a, b, c, d) in LU.DIM.items()}
+
+
+def _mul(v, f):
+    if isinstance(v, list):
+        return [_mul(x, f) for x in v]
+    return v * f
+
+
+def in_working_units(case):
+    """the case's physical system expressed in the working units in force now (copy; 'wu' removed)"""
+    sz = default_unit_sizes()
+    out = copy.deepcopy(case)
+    out.pop('wu', None)
+    c = out['cell']
+    for k in ('lx', 'ly', 'lz', 'xy', 'xz', 'yz'):
+        c[k] = c[k] * sz['length']
+    c['origin'] = [v * sz['length'] for v in c['origin']]
+    for name, q in PROP_Q.items():
+        if name in out['props']:
+            out['props'][name] = _mul(out['props'][name], sz[q])
+    if out.get('masses') is not None:
+        out['masses'] = [None if m is None else m * sz['mass'] for m in out['masses']]
+    out['mass_is_amu'] = bool(abs(sz['mass'] - 1.0) < 1e-12)
+    return out
+
+
+def cfg_labels(wu, labels):
+    labels.add('wu')
+    cfg = wu['cfg']
+    labels.add('wu_' + cfg['kind'] if cfg != DEFAULT_CFG else 'wu_default')
+    if cfg['kind'] == 'named' and cfg != DEFAULT_CFG:
+        labels.add('wu_len_' + cfg['units']['length'])
+    if wu['pre'] is not None:
+        labels.add('wu_pre')
+        labels.add('wu_pre_default' if wu['pre'] == DEFAULT_CFG else 'wu_pre_other')
+
+
+def under_units(inner, pre_call):
+    """oracle that runs `inner` on the case's physical system under the case's working-unit plan"""
+    def oracle(case):
+        wu = case.get('wu')
+        if wu is None:
+            return inner(case)
+        import atomman.unitconvert as uc
+        try:
+            if wu['pre'] is not None:
+                apply_units(uc, wu['pre'])
+                pre_call(in_working_units(case))
+            apply_units(uc, wu['cfg'])
+            labels = set(inner(in_working_units(case)))
+            cfg_labels(wu, labels)
+        finally:
+            restore_units(uc)
+        return labels
+    oracle.__name__ = inner.__name__
+    return oracle
 
 
 # ----------------------------------------------------------------------------- input forms and object history
@@ -391,7 +650,7 @@ _POTSHARE_SNIPPET = st.sampled_from((False, True, True))
 
 @st.composite
 def data_cases(draw):
-    c = draw(_CELLS_LMP)
+    c = apply_tiny(draw(_CELLS_LMP), draw(_TINY))
     pbc = draw(gens.pbcs)
     rel = draw(_REL)
     style = draw(_ALLSTYLES)
@@ -417,6 +676,7 @@ def data_cases(draw):
     if draw(_POTSHARE_DATA):
         add_pot(case, rng, False)
     case['form'], case['pre'] = gen_form_history(rng)
+    case['wu'] = draw(_WU)
     return case
 
 
@@ -428,7 +688,7 @@ _UNITS_ALL = st.sampled_from(UNITS)
 
 @st.composite
 def dump_cases(draw):
-    c = draw(_CELLS_LMP)
+    c = apply_tiny(draw(_CELLS_LMP), draw(_TINY))
     pbc = draw(gens.pbcs)
     rel = draw(_REL)
     units = draw(_UNITS_ALL)
@@ -453,7 +713,7 @@ def dump_cases(draw):
     form, pre = gen_form_history(rng)
     return {'cell': c, 'pbc': pbc, 'rel': rel, 'atype': atype, 'props': props, 'symbols': None,
             'units': units, 'fmt': fmt, 'prop_name': explicit, 'sink': 'io' if (bits & 12) == 12 else 'str',
-            'form': form, 'pre': pre}
+            'form': form, 'pre': pre, 'wu': draw(_WU)}
 
 
 _SCALES = st.sampled_from([1.0, 1.0, 0.5, 3.7, 'a'])
@@ -464,7 +724,7 @@ _HEADER = st.sampled_from(['', 'generated', 'Fe3 O4  # comment', '  two  words '
 
 @st.composite
 def poscar_cases(draw):
-    c = draw(_CELLS_ANY)
+    c = apply_tiny(draw(_CELLS_ANY), draw(_TINY))
     rel = draw(_REL)
     scale = draw(_SCALES)
     coord = draw(_COORD)
@@ -489,7 +749,7 @@ def poscar_cases(draw):
 
 @st.composite
 def snippet_cases(draw):
-    c = draw(_CELLS_LMP)
+    c = apply_tiny(draw(_CELLS_LMP), draw(_TINY))
     pbc = draw(gens.pbcs)
     rel = draw(_REL_SMALL)
     style = draw(_ALLSTYLES)
@@ -506,18 +766,36 @@ def snippet_cases(draw):
     if draw(_POTSHARE_SNIPPET):
         add_pot(case, rng, bool(bits & 16))
     case['form'], case['pre'] = gen_form_history(rng)
+    case['wu'] = draw(_WU)
     return case
 
 
 # ============================================================================= building the system
 
 def snapshot(case):
+    """cell vectors of the system (what a Box holds for the vectors handed over: cleaned_vects), origin, relative
+    coordinates in that cell, absolute positions"""
     c = case['cell']
-    V = gens.cell_vects(c)
+    V0 = gens.cell_vects(c)
     o = gens.cell_origin(c)
     s0 = np.array(case['rel'], dtype=float)
-    x0 = s0 @ V + o
+    x0 = s0 @ V0 + o
+    V, onrung = cleaned_vects(V0)
+    if onrung:
+        raise OnRung()
+    if not np.array_equal(V, V0):
+        s0 = (x0 - o) @ np.linalg.inv(V)
     return V, o, s0, x0
+
+
+class OnRung(Exception):
+    """a cell vector component sits on Box's clean-up rung (1e-9 of the largest): whether it is zeroed depends on the last
+    bit, so the system's cell is not known to the oracle; the generator keeps off the rung, rotated cells can land on it
+    only by accident"""
+
+
+def is_tilted(V):
+    return bool(V[1, 0] or V[2, 0] or V[2, 1])
 
 
 def build_system(am, case, V, o, x0):
@@ -525,12 +803,12 @@ def build_system(am, case, V, o, x0):
     props = {k: np.array(v) for k, v in case['props'].items()}
     atype = np.array(case['atype'], dtype=int)
     pos = x0.copy()
-    vects, origin = V.copy(), o.copy()
+    vects, origin = gens.cell_vects(case['cell']), o.copy()      # as given: the clean-up is Box's
     pbc = list(case['pbc'])
     if form == 'list':
         # plain Python sequences (floats convert exactly)
         props = copy.deepcopy(case['props'])
-        atype, pos, vects, origin, pbc = list(case['atype']), x0.tolist(), V.tolist(), o.tolist(), tuple(case['pbc'])
+        atype, pos, vects, origin, pbc = list(case['atype']), x0.tolist(), vects.tolist(), o.tolist(), tuple(case['pbc'])
     elif form == 'fortran':
         pos = np.asfortranarray(pos)
         vects = np.asfortranarray(vects)
@@ -596,9 +874,22 @@ def build_potential(p):
     return potentials.build_lammps_potential(**kw).potential()
 
 
-def system_labels(case, s0):
+def system_labels(case, s0, V):
     c = case['cell']
-    labs = set(gens.cell_labels(c))
+    labs = set(gens.cell_labels(c)) - {'tilted'}
+    # tilted: a tilt that survives Box's clean-up (rotated cells - POSCAR only - are judged on the unrotated cell)
+    if is_tilted(V if not c.get('rot') else cleaned_vects(gens.cell_vects(dict(c, rot=None)))[0]):
+        labs.add('tilted')
+    if c.get('tiny'):
+        labs.add('tiny_tilt')
+        r = [abs(c[k]) / max(abs(c[j]) for j in ('lx', 'ly', 'lz', 'xy', 'xz', 'yz')) for k in ('xy', 'xz', 'yz')]
+        small = [v for v in r if 0 < v < 2e-3]
+        if any(v <= CLEAN_RUNG for v in small):
+            labs.add('tiny_cleaned')
+        if any(CLEAN_RUNG < v < 1.5e-5 for v in small):
+            labs.add('tiny_1e-9_1e-5')
+        if any(v >= 1.5e-5 for v in small):
+            labs.add('tiny_1e-5_1e-3')
     outside = bool(np.any(s0 < 0) or np.any(s0 >= 1))
     if outside:
         labs.add('outside')
@@ -610,6 +901,34 @@ def system_labels(case, s0):
         labs.add('type_gap')
     form_labels(case, labs)
     return labs, outside
+
+
+def style_labels(style, units, base, labels):
+    if style in ALL_STYLES:
+        labels.add('style_' + style.replace(' ', '_'))
+    if style.startswith('hybrid'):
+        labels.add('hybrid')
+        sh = shared_columns(style)
+        if sh:
+            labels.add('shared')
+            labels.add('shared_%d' % (len(style.split()) - 1))
+            for c in sh:
+                labels.add('shared_' + c)
+            sc = scaled_shared(style, units, base)
+            if sc:
+                labels.add('shared_scaled')
+                for c in sc:
+                    labels.add('shared_scaled_' + c)
+
+
+def guarded(inner):
+    def oracle(case):
+        try:
+            return inner(case)
+        except OnRung:
+            return {'onrung'}
+    oracle.__name__ = inner.__name__.lstrip('_')
+    return oracle
 
 
 # ============================================================================= data files
@@ -686,16 +1005,17 @@ def call_data_dump(case, system):
             shutil.rmtree(tmpdir, ignore_errors=True)
 
 
-def oracle_data(case):
+def _oracle_data(case):
     import atomman as am
     V, o, s0, x0 = snapshot(case)
-    labels, outside = system_labels(case, s0)
+    labels, outside = system_labels(case, s0, V)
     style, units, fmt = case['style'], case['units'], case['fmt']
     hybrid = style.startswith('hybrid')
     n = len(x0)
     base = base_units()
     kn = Known()
     system = build_system(am, case, V, o, x0)
+    V_sys = V
     ret, fname = call_data_dump(case, system)
     info = None
     if case['return_info']:
@@ -725,9 +1045,6 @@ def oracle_data(case):
     require(('Velocities' in sec) == has_vel, lambda: 'Velocities section present=%r but system has velocity=%r' % ('Velocities' in sec, has_vel))
     # ---- box
     fl, rel_l = LU.factor(units, 'length', base)
-    tilted = gens.cell_is_tilted(case['cell'])
-    require((d['tilt'] is not None) == tilted, lambda: 'tilt line present=%r but the cell has tilts %r' % (
-        d['tilt'] is not None, [case['cell'][k] for k in ('xy', 'xz', 'yz')]))
     lo = np.zeros(3); hi = np.zeros(3); hlo = np.zeros(3); hhi = np.zeros(3)
     for i, ax in enumerate('xyz'):
         (lo[i], hlo[i]), (hi[i], hhi[i]) = fv(d['bounds'][ax][0]), fv(d['bounds'][ax][1])
@@ -735,6 +1052,24 @@ def oracle_data(case):
     if d['tilt'] is not None:
         for i in range(3):
             tl[i], htl[i] = fv(d['tilt'][i])
+    if is_tilted(V) and not all(case['pbc']):
+        # the wrap extends the cell along non-periodic directions and sets the box anew: Box's clean-up (components up to
+        # 1e-9 of the largest one become zero) then acts relative to the WRITTEN cell - such a tilt may come out as zero
+        rung = 1.001 * CLEAN_RUNG * (max(float(np.max(hi - lo)), float(np.abs(tl).max())) + float(np.max(hlo + hhi)))
+        Vs = V.copy()
+        for (i, j), k in (((1, 0), 0), ((2, 0), 1), ((2, 1), 2)):
+            # (the tilt of a vector grows with the vector; a zero token only counts where the format resolves the tilt)
+            grown = abs(V[i, j]) * fl * max(1.0, (hi[i] - lo[i]) / (V[i, i] * fl))
+            if V[i, j] != 0.0 and grown <= rung and tl[k] == 0.0 and abs(V[i, j]) * fl > 2 * htl[k]:
+                Vs[i, j] = 0.0
+        if not np.array_equal(Vs, V):
+            labels.add('tilt_cleaned_on_extension')
+            lost = float(np.abs(V - Vs).sum()) * fl
+            V = Vs
+            s0 = (x0 - o) @ np.linalg.inv(V)
+    tilted = is_tilted(V)
+    require((d['tilt'] is not None) == tilted, lambda: 'tilt line present=%r but the cell has tilts %r' % (
+        d['tilt'] is not None, [V[1, 0], V[2, 0], V[2, 1]]))
     VL, oL, x0L = V * fl, o * fl, x0 * fl
     if np.any(np.diag(VL) < 200 * (hlo + hhi)):
         labels.add('underresolved')
@@ -745,6 +1080,9 @@ def oracle_data(case):
     smax = max(1.0, float(np.abs(s0).max()))
     mag = (np.abs(o).max() + np.abs(V).sum() * (1 + smax)) * fl
     arith = (32 * EPS * cond + rel_l) * mag          # floating-point floor of wrap + conversion, LAMMPS units
+    if 'tilt_cleaned_on_extension' in labels:
+        # the faces were placed with the tilt still in the cell: they are off by the lost tilt times the extension
+        arith += lost * (1 + smax)
     dVw = np.array([[hlo[0] + hhi[0], 0, 0], [htl[0], hlo[1] + hhi[1], 0], [htl[1], htl[2], hlo[2] + hhi[2]]]) + arith
     iVL = np.abs(np.linalg.inv(VL))
     A = Vw @ np.linalg.inv(VL)
@@ -818,14 +1156,12 @@ def oracle_data(case):
         labels.add('velocities')
     # ---- the caller's system: untouched with safecopy, else the wrapped state that was written
     if case['safecopy']:
-        require(np.array_equal(system.atoms.pos, x0) and np.array_equal(system.box.vects, am.Box(vects=V, origin=o).vects)
+        require(np.array_equal(system.atoms.pos, x0) and np.array_equal(system.box.vects, am.Box(vects=V_sys, origin=o).vects)
                 and np.array_equal(system.box.origin, o), 'safecopy=True but the caller\'s system was modified')
         labels.add('safecopy')
-    labels.add('style_' + style.replace(' ', '_'))
+    style_labels(style, units, base, labels)
     labels.add('units_' + units)
     labels.add('fmt_' + fmt)
-    if hybrid:
-        labels.add('hybrid')
     if extended:
         labels.add('extended')
     if case['style_arg'] is None or case['units_arg'] is None:
@@ -838,7 +1174,7 @@ def oracle_data(case):
         labels.add('filename')
     if case.get('pot') is not None:
         labels.add('potential')
-    if tilted and not (case['cell']['xy'] or case['cell']['xz']):
+    if tilted and not (V[1, 0] or V[2, 0]):
         labels.add('only_yz')
     if (labels & {'tilted', 'origin'}) and outside and (style != 'atomic' or units != 'metal'):
         labels.add('nt')
@@ -911,6 +1247,21 @@ def _check_atoms(case, cols, recs, flags, kn, own, x0L, Vw, dVw, lo, hlo, arith,
             bo = np.asarray(system.box.origin, dtype=float) * fl
             require(np.all(np.abs(bo - lo) <= hlo + arith), lambda: 'file lo bounds differ from the (wrapped) system\'s origin: %r %r' % (lo, bo))
     return ids, bool(np.any(F != 0))
+
+
+def _pre_data(case):
+    """an earlier data file of the same system with the same style, units and format (not judged here)"""
+    import atomman as am
+    V, o, s0, x0 = snapshot(case)
+    system = build_system(am, dict(case, pre=None), V, o, x0)
+    try:
+        system.dump('atom_data', atom_style=case['style'], units=case['units'], float_format=case['fmt'], safecopy=True)
+    except KeyError as e:
+        if e.args not in (('volume',), ('None',)):       # the listed blocking findings: raised keyed by the judged call
+            raise
+
+
+oracle_data = guarded(under_units(_oracle_data, _pre_data))
 
 
 # ============================================================================= command snippet
@@ -1031,7 +1382,7 @@ def judge_snippet(case, info, fname, labels, kn=None):
     got_m = [c[1] for c in cmds if c[0] == 'mass']
     require(all(len(g) == 2 and LD.is_int(g[0]) for g in got_m) and sorted(int(g[0]) for g in got_m) == list(range(1, len(norm) + 1)),
             lambda: 'mass lines %r: expected one for each of the %d atom types the potential lists' % (got_m, len(norm)))
-    if units in ('metal', 'real'):
+    if units in ('metal', 'real') and case.get('mass_is_amu', True):
         # g/mol = the working mass unit: the numbers are the system's masses where set, else the potential's
         sm = list(case.get('masses') or [])
         for g in got_m:
@@ -1078,10 +1429,10 @@ def judge_snippet(case, info, fname, labels, kn=None):
         labels.add('pot_prior_use')
 
 
-def oracle_snippet(case):
+def _oracle_snippet(case):
     import atomman as am
     V, o, s0, x0 = snapshot(case)
-    labels, outside = system_labels(case, s0)
+    labels, outside = system_labels(case, s0, V)
     system = build_system(am, case, V, o, x0)
     ret, fname = call_data_dump(case, system)
     require(isinstance(ret, tuple) and len(ret) == 2 and isinstance(ret[1], str), lambda: 'expected (content, info), got %r' % (type(ret),))
@@ -1098,7 +1449,7 @@ def oracle_snippet(case):
     cm = d['sections']['Atoms']['comment']
     if cm:
         require(cm.split()[0] == style.split()[0], lambda: 'Atoms section comment %r does not name atom_style %r' % (cm, style))
-    labels.add('style_' + style.replace(' ', '_'))
+    style_labels(style, units, base_units(), labels)
     labels.add('units_' + units)
     if case['style_arg'] is None or case['units_arg'] is None:
         labels.add('defaults')
@@ -1107,6 +1458,9 @@ def oracle_snippet(case):
     if style != 'atomic' or units != 'metal':
         labels.add('nt')
     return labels
+
+
+oracle_snippet = guarded(under_units(_oracle_snippet, _pre_data))
 
 
 # ============================================================================= dump files
@@ -1121,10 +1475,10 @@ DUMPCOLS = {   # System property -> (dump custom column names, LAMMPS quantity)
 }
 
 
-def oracle_dump(case):
+def _oracle_dump(case):
     import atomman as am
     V, o, s0, x0 = snapshot(case)
-    labels, outside = system_labels(case, s0)
+    labels, outside = system_labels(case, s0, V)
     units, fmt = case['units'], case['fmt']
     n = len(x0)
     base = base_units()
@@ -1161,8 +1515,8 @@ def oracle_dump(case):
         require((d['boundary'][i] == 'pp') == bool(case['pbc'][i]), lambda: 'boundary flags %r for pbc %r' % (d['boundary'], case['pbc']))
     # ---- box: bounding box <-> lo/hi + tilts
     c = case['cell']
-    tilted = gens.cell_is_tilted(c)
-    require(d['triclinic'] == tilted, lambda: 'BOX BOUNDS triclinic=%r but the cell has tilts %r' % (d['triclinic'], [c[k] for k in ('xy', 'xz', 'yz')]))
+    tilted = is_tilted(V)
+    require(d['triclinic'] == tilted, lambda: 'BOX BOUNDS triclinic=%r but the cell has tilts %r' % (d['triclinic'], [V[1, 0], V[2, 0], V[2, 1]]))
     fl, rel_l = LU.factor(units, 'length', base)
     lob = np.zeros(3); hib = np.zeros(3); hlo = np.zeros(3); hhi = np.zeros(3)
     for i in range(3):
@@ -1171,8 +1525,8 @@ def oracle_dump(case):
     if tilted:
         for i in range(3):
             tl[i], htl[i] = fv(d['tilt'][i])
-    xy, xz, yz = c['xy'] * fl, c['xz'] * fl, c['yz'] * fl
-    L = np.array([c['lx'], c['ly'], c['lz']]) * fl
+    xy, xz, yz = V[1, 0] * fl, V[2, 0] * fl, V[2, 1] * fl
+    L = np.diag(V) * fl
     oL = o * fl
     mag = (np.abs(o).max() + np.abs(V).sum()) * fl
     arith = (16 * EPS + rel_l) * mag
@@ -1268,6 +1622,24 @@ def _dump_props(case):
     return ['atom_id', 'atype', 'pos'] + [p for p in case['props'] if p != 'atom_id']
 
 
+def _pre_dump(case):
+    """an earlier dump file of the same system with the same unit style and format (not judged here)"""
+    import atomman as am
+    V, o, s0, x0 = snapshot(case)
+    system = build_system(am, dict(case, pre=None), V, o, x0)
+    kw = dict(lammps_units=case['units'], float_format=case['fmt'])
+    if case['prop_name'] is not None:
+        kw['prop_name'] = list(case['prop_name'])
+    try:
+        system.dump('atom_dump', **kw)
+    except (TypeError, KeyError):
+        if case['units'] != 'lj':                         # the listed blocking findings under lj: keyed by the judged call
+            raise
+
+
+oracle_dump = guarded(under_units(_oracle_dump, _pre_dump))
+
+
 # ============================================================================= POSCAR
 
 def _match_rows(got, exp, tol):
@@ -1283,10 +1655,10 @@ def _match_rows(got, exp, tol):
     return bool(np.all(mt >= 0))
 
 
-def oracle_poscar(case):
+def _oracle_poscar(case):
     import atomman as am
     V, o, s0, x0 = snapshot(case)
-    labels, outside = system_labels(case, s0)
+    labels, outside = system_labels(case, s0, V)
     n = len(x0)
     kn = Known()
     system = build_system(am, case, V, o, x0)
@@ -1395,6 +1767,51 @@ def oracle_poscar(case):
     return labels
 
 
+oracle_poscar = guarded(_oracle_poscar)
+
+
+# ============================================================================= hybrids with shared columns, enumerated
+_ENUM_CELLS = ({'lx': 6.0, 'ly': 5.5, 'lz': 7.25, 'xy': 0.0, 'xz': 0.0, 'yz': 0.0, 'origin': [0.0, 0.0, 0.0]},
+               {'lx': 4.5, 'ly': 6.0, 'lz': 5.0, 'xy': 1.25, 'xz': -0.75, 'yz': 2.0, 'origin': [-3.0, 1.5, 12.0]},
+               {'lx': 11.0, 'ly': 3.5, 'lz': 8.0, 'xy': -2.5, 'xz': 0.0, 'yz': 0.5, 'origin': [0.0, 0.0, 0.0]})
+
+
+def hybrid_enum(tier):
+    """every combination of two and of three distinct sub-styles with a shared column that has a LAMMPS unit, under every
+    unit style whose factor for such a column is not one (default working units; electron left out where a density
+    column has no unit): quick - pairs in both orders, triples in one order rotating with the index; thorough - every
+    order.  Small fixed-size systems from a seeded generator."""
+    import itertools
+    cases = []
+    k = 0
+    for size in (2, 3):
+        for combo in itertools.combinations(SUBSTYLES, size):
+            perms = list(itertools.permutations(combo))
+            hot = [u for u in _allowed_units('hybrid ' + ' '.join(combo)) if scaled_shared('hybrid ' + ' '.join(combo), u, _DEF_BASE)]
+            for units in hot:
+                k += 1
+                if tier != 'quick':
+                    chosen = perms
+                elif size == 2:
+                    chosen = perms
+                else:
+                    chosen = [perms[k % len(perms)]]
+                for j, perm in enumerate(chosen):
+                    style = 'hybrid ' + ' '.join(perm)
+                    rng = np.random.default_rng(1000 * k + j)
+                    n = 3
+                    velocity = bool((k + j) % 2)
+                    cell = dict(_ENUM_CELLS[(k + j) % 3], rot=None, lefthanded=False)
+                    rel = [[round(float(v), 3) for v in row] for row in rng.uniform(-1.0, 2.0, size=(n, 3))]
+                    props = {name: gen_prop(rng, name, n) for name in style_props(style, velocity)}
+                    cases.append({'cell': cell, 'pbc': gens.PBCS[(k + 3 * j) % 8], 'rel': rel, 'atype': gen_atype(rng, n),
+                                  'props': props, 'symbols': None, 'style': style, 'units': units,
+                                  'fmt': '%.16e' if units in ('si', 'cgs') else ('%.13f', '%.8f')[(k + j) % 2],
+                                  'style_arg': style, 'units_arg': units, 'safecopy': bool(k % 2), 'return_info': bool(j % 2),
+                                  'natypes_extra': 0, 'sink': 'str', 'form': 'array', 'pre': [], 'wu': None})
+    return cases
+
+
 # ============================================================================= clauses
 
 def _blocked():
@@ -1431,6 +1848,10 @@ CLAUSES = [
            desc="dump('atom_data') (also via potential= and into a named file): header counts, lo<hi, tilt line, ids, containment, "
                 "cell (wrap contract), types, positions with image flags re-applied, per-style columns and Velocities against the "
                 "independent unit table; the returned snippet judged as in clause snippet"),
+    Clause('hybrid_shared', oracle_data, enumerate=hybrid_enum, nontrivial='shared_scaled',
+           min_share={'shared_scaled': 0.9, 'shared_3': 0.3, 'shared_2': 0.1, 'velocities': 0.3},
+           desc="dump('atom_data') for every combination of two and three sub-styles of atom_style hybrid that share a column with a "
+                "LAMMPS unit, under every unit style that rescales it: the shared column is listed once and converted once"),
     Clause('dump', oracle_dump, dump_cases, quick=6000, thorough=100000,
            min_share={'nt': 0.2, 'explicit': 0.12, 'neg_tilt': 0.08, 'own_ids': 0.12, 'history': 0.035, 'form_list': 0.06,
                       'form_fortran': 0.065, 'form_readonly': 0.05, 'form_strided': 0.055},
